@@ -17,7 +17,7 @@ theorem C04_overlap_same_family (W : World) (F : Family) (hk : KeysOverHeader F)
   intro a1 a2
   obtain ⟨τ1, gs1, n1, e1, _, l1, p1, h1⟩ := spec_sub_gen W F m1 q ok1 hw c1 s1 a1
   obtain ⟨τ2, gs2, n2, e2, _, l2, p2, h2⟩ := spec_sub_gen W F m2 q ok2 hw c2 s2 a2
-  have : gs1 = gs2 := helper_args_unique W F hk q τ1 τ2 gs1 gs2 n1 n2 e1 e2 l1 l2 p1 p2
+  have : gs1 = gs2 := helper_args_unique W F hk q τ1 τ2 gs1 gs2 (wkF_hdr n1) (wkF_hdr n2) e1 e2 l1 l2 p1 p2
   subst this
   exact ⟨gs1, h1, h2⟩
 
